@@ -5,6 +5,7 @@ MANIFEST.json and never report under a listed property id.
 X01  specs/extras/FieldSetRegistry.tla   FieldSet registry / digest / merge
 X02  specs/extras/ThrustModes.tla        ThrustModeValues frozen / mutable machine
 X03  specs/extras/TrajectoryPhases.tla   Trajectory flight-phase machine (set_phase / append / copy / interpolate)
+X04  specs/extras/DimensionSets.tla      Dimensions value algebra (validity, add / remove, order, NetCDF names, abbreviations)
 """
 
 from __future__ import annotations
@@ -210,6 +211,66 @@ def run_phases(hist):
         return [('machinery', f'{type(e).__name__}: {e}\n{traceback.format_exc()}')]
 
 
+def run_dims(hist):
+    """One DimensionSets.tla behaviour on real Dimensions values."""
+    warnings.simplefilter('ignore')
+    try:
+        from AEIC.storage import Dimension, Dimensions
+
+        E = {d.dim_name: d for d in Dimension}
+        cur = None
+        done = []
+        for k, e in enumerate(hist):
+            op, a, want = e['op'], e['a'], e['res']
+            before = None if cur is None else frozenset(cur.dims)
+            try:
+                if op == 'new':
+                    try:
+                        cur2 = Dimensions(*[E[n] for n in a])
+                        got = 'ok'
+                        cur = cur2
+                    except ValueError:
+                        got = 'refused'
+                elif op in ('add', 'remove'):
+                    try:
+                        nxt = getattr(cur, op)(E[a])
+                        got = 'ok'
+                    except ValueError:
+                        nxt, got = cur, 'refused'
+                    if frozenset(cur.dims) != before:
+                        got = f'{op} changed the value it was called on'
+                    cur = nxt
+                elif op == 'contains':
+                    got = 'yes' if E[a] in cur else 'no'
+                elif op == 'ordered':
+                    got = [d.dim_name for d in cur.ordered]
+                elif op == 'netcdf':
+                    got = list(cur.netcdf)
+                    back = Dimensions.from_dim_names(*(got + (['point'] if Dimension.POINT in cur else [])))
+                    if back != cur or hash(back) != hash(cur):
+                        got = f'names {got} do not lead back to {cur}'
+                elif op == 'abbrev':
+                    got = list(cur.abbrev)
+                    if Dimensions.from_abbrev(cur.abbrev) != cur or str(cur) != f'Dimensions({cur.abbrev})':
+                        got = f'abbreviation {cur.abbrev} does not lead back to {cur}'
+                elif op == 'len':
+                    got = [len(cur)]
+                else:
+                    raise MachineryError(f'unknown op {op}')
+            except MachineryError:
+                raise
+            except Exception as ex:
+                got = f'raised {type(ex).__name__}: {ex}'
+            done.append((op, a, got))
+            if got != want:
+                return [(f'dims:{op}:{str(want)[:24]}->{str(got).split(":")[0][:30]}', f'operation {k} {op}({a}) gave {got!r}; specification: {want!r}; history {done}')]
+        return []
+    except Exception as e:
+        import traceback
+
+        return [('machinery', f'{type(e).__name__}: {e}\n{traceback.format_exc()}')]
+
+
 def _replay(ctx, hists, fn, label):
     ctx.log(f'{label}: {len(hists)} behaviours')
     for h, devs in zip(hists, pmap(fn, hists)):
@@ -251,4 +312,13 @@ def run_x03(ctx: Ctx):
     _replay(ctx, hs, run_phases, 'phases')
 
 
-EXTRAS = {'X01': run_x01, 'X02': run_x02, 'X03': run_x03}
+def run_x04(ctx: Ctx):
+    ctx.rule = 'every DimensionSets.tla behaviour of length 4 (5): construction from every subset of the four dimensions, then add / remove / contains / ordered / NetCDF names / abbreviation / len'
+    ctx.assumptions += ['not a listed property: specification growth (DESIGN.md section 10)']
+    tlc.check(ctx, 'extras/DimensionSets', 'extras/MC_DimensionSets.cfg', workers=8)
+    hs = tlc.check(ctx, 'extras/DimensionSets', 'extras/Gen_DimensionSets.cfg', workers=4, sub=None if ctx.quick else {'D = 4': 'D = 5'})['emitted']
+    ctx.exhaustive = True
+    _replay(ctx, hs, run_dims, 'dims')
+
+
+EXTRAS = {'X01': run_x01, 'X02': run_x02, 'X03': run_x03, 'X04': run_x04}
